@@ -12,7 +12,7 @@ for d in sorted(glob.glob(V + "/seeded/C*/m*")):
     if args and not any(a == prop or a == prop + "/" + mk for a in args):
         continue
     targets.append((prop, mk, d))
-resf = V + "/seeded/RESULTS.json"
+resf = os.environ.get("SEED_RESULTS", V + "/seeded/RESULTS.json")
 results = json.load(open(resf)) if os.path.exists(resf) else {}
 # work on a private worktree of /repo's HEAD (other agents use /repo concurrently); the registered checks themselves
 # always run against /repo - VERIF_REPO only redirects them for this experiment
@@ -31,7 +31,7 @@ for prop, mk, d in targets:
     try:
         for c in checks:
             t = time.time()
-            p = subprocess.run(["./check", c, "--tier", tier], cwd=V, env=dict(os.environ, VERIF_WORK_SUFFIX="-seed", VERIF_EVIDENCE_DIR="/verif/work/seed-evidence", VERIF_REPLAYS_DIR="/verif/work/seed-replays"), capture_output=True, text=True)
+            p = subprocess.run(["./check", c, "--tier", tier], cwd=V, env=dict(os.environ, VERIF_WORK_SUFFIX=os.environ.get("SEED_SUFFIX", "-seed"), VERIF_EVIDENCE_DIR="/verif/work/seed-evidence", VERIF_REPLAYS_DIR="/verif/work/seed-replays"), capture_output=True, text=True)
             viol = [l for l in p.stdout.splitlines() if l.startswith("VIOLATION")]
             key = "%s/%s" % (prop, mk)
             results.setdefault(key, {})[c + ":" + tier] = {"rc": p.returncode, "caught": p.returncode == 1 and bool(viol), "s": round(time.time() - t, 1),
